@@ -72,6 +72,14 @@ func main() {
 		}
 	}
 	p.rootsAreExits = true
+	// returning from a helper into one of the two event loops ends the per-event activity;
+	// returning into the dispatcher or the client call continues that call's activity
+	p.loopRoots = map[*ssa.Function]bool{}
+	for _, f := range []*ssa.Function{r.FnLoop, r.FnExec} {
+		if f != nil {
+			p.loopRoots[f] = true
+		}
+	}
 	if os.Getenv("JRP_DEBUG_ORIGINS") != "" {
 		debugOrigins(newCtx(p, r, "debug"))
 		return
